@@ -761,6 +761,15 @@ More3 == <<
   V("parenfree/call", "ExprFunctionCall", {"parenfree"}, "both", L.atom, TRUE,
     [Function |-> Nd("Name", [Parts |-> Sq(<<NamePartN>>)]), OpenParenthesisTkn |-> Tk("("), Args |-> Args, CloseParenthesisTkn |-> Tk(")")]),
   V("parenfree/var", "ExprVariable", {"parenfree"}, "both", L.atom, TRUE, [Name |-> Ident("VAR")]),
+  \* a negative offset that is no decimal number is a string key: the node's value is the sign followed by the token's text
+  V("ScalarEncapsed/idxneghex", "ScalarEncapsed", {"expr"}, "7", L.atom, TRUE,
+    [OpenQuoteTkn |-> TkG("\"", "R"),
+     Parts |-> Sq(<<StrText, StrDim(Nd("ScalarString", [MinusTkn |-> TkG("-", "LR"), StringTkn |-> TkG("NUMSTR_HEX", "LR"), Value |-> Vl("MinusTkn+StringTkn")]))>>),
+     CloseQuoteTkn |-> TkG("\"", "L")]),
+  V("ScalarEncapsed/idxnegbin", "ScalarEncapsed", {"expr"}, "7", L.atom, TRUE,
+    [OpenQuoteTkn |-> TkG("\"", "R"),
+     Parts |-> Sq(<<StrDim(Nd("ScalarString", [MinusTkn |-> TkG("-", "LR"), StringTkn |-> TkG("NUMSTR_BIN", "LR"), Value |-> Vl("MinusTkn+StringTkn")])), StrVar>>),
+     CloseQuoteTkn |-> TkG("\"", "L")]),
   V("ScalarEncapsed/idxneg", "ScalarEncapsed", {"expr"}, "7", L.atom, TRUE,
     [OpenQuoteTkn |-> TkG("\"", "R"),
      Parts |-> Sq(<<StrDim(Nd("ExprUnaryMinus", [MinusTkn |-> TkG("-", "LR"), Expr |-> IdxNum])), StrText>>),
